@@ -298,6 +298,15 @@ def run_tlc_parallel(module, cfg, trace, tag, is_reset, nparts=8, timeout=3000, 
             ts = tlc_tuples(out)
             done = [t for t in ts if re.match(r'<<\s*"DONE"', t)]
             if not done or tlc_failed(out):
+                viol = [t for t in ts if "LAWVIOL" in t[:14]]
+                if viol:
+                    # the monitor reported violations and then could not evaluate a later, malformed
+                    # step of the same (already deviating) execution: the violations stand, the
+                    # rest of this part of the trace is not judged
+                    log("[tlc] %s: monitor stopped after %d reported violation(s); remaining events of this part not judged" % (os.path.basename(pth), len(viol)))
+                    tuples += ts
+                    total += n
+                    continue
                 raise ToolError("TLC did not consume %s:\n%s" % (pth, "\n".join(out.split("\n")[-30:])))
             m = re.match(r'<<\s*"DONE",\s*(\d+)', done[-1])
             if int(m.group(1)) != n:
